@@ -568,6 +568,15 @@ def rule_range_conversion(ctx, crate):
                 sl, sh = T.strip(lo), T.strip(hi)
                 if sl[0] == "const" and sh[0] == "const" and isinstance(sl[1], int) and isinstance(sh[1], int) and sl[1] > sh[1] and nonempty is False:
                     empty_repr = True
+        # .. and every named constant of type (u16, u16) used as the stored value (`const EMPTY_PORT_RANGE: (u16, u16) = (1, 0)`)
+        for i, j, st in b.iter_stmts():
+            if st["k"] == "assign" and st["r"]["k"] == "use" and "k" in st["r"]["o"]:
+                cv = T.const_value(st["r"]["o"]["k"])
+                raw_ = cv[1][1] if isinstance(cv[1], tuple) and cv[1] and cv[1][0] == "raw" else cv[1]
+                if cv[3] == "(u16, u16)" and isinstance(raw_, (bytes, bytearray)) and len(raw_) == 4:
+                    lo_, hi_ = int.from_bytes(raw_[0:2], "little"), int.from_bytes(raw_[2:4], "little")
+                    if lo_ > hi_ and _nonempty_cond(Q.canon_conds(P, T.dom_conds(b, S, i))) is False:
+                        empty_repr = True
         if not right_vec:
             continue
         # does the empty path skip the push entirely?
